@@ -34,10 +34,10 @@ func vfRunC07Case(env *vfEnv, part *vfPart, caseNo int) {
 	cfg := vfInstCfg{Manual: true, NDb: 3}
 	cfg.DBConcurrent = uint([]int{1, 2, 2, 8}[rng.Intn(4)])
 	// the loader replays different keys concurrently (one goroutine per AOF
-	// channel); fast-key tables of 1-4 slots make every key collide there, which
-	// is a concurrency matter of the key table (findings/fastkey-race), not of
-	// restart recovery: E4 keeps the table large enough for its handful of keys
-	cfg.FastKeys = uint([]int{256, 4096, 65536}[rng.Intn(3)])
+	// channel); fast-key tables of 1-4 slots make every key collide there: this
+	// is how the duplicate-manager race (findings/fastkey-race, fixed by 648ad35)
+	// showed up, so the tiny tables stay in the configuration space
+	cfg.FastKeys = uint([]int{1, 4, 256, 65536}[rng.Intn(4)])
 	cfg.AofTime = uint([]int{0, 1, 1, 2, 3}[rng.Intn(5)])
 	cfg.AofBuf = uint([]int{64, 128, 4096}[rng.Intn(3)])
 	cfg.RewriteSize = uint([]int{12 + 64*6, 12 + 64*15, 12 + 64*40, 8 << 20}[rng.Intn(4)])
